@@ -3,6 +3,7 @@
 // semantics), so "never panics in any build profile" is part of every obligation.
 // Preconditions are exactly those of the property statement: rotation amounts 1..bits-1, valid lane
 // indices, slices of the vector's length.
+#![recursion_limit = "1024"]
 #![allow(non_camel_case_types, unused_imports, dead_code, clippy::all)]
 #[path = "../common/nd.rs"]
 #[macro_use]
